@@ -27,7 +27,7 @@ func Check() *common.Check {
 			"states = distinct (model document open/defined/text, server document open/text) pairs observed after a transition; transitions = messages delivered to a server; at most %d failing cases per signature and worker are reported in detail, counters failures:<sig> hold the totals", len(alphabet()), len(reducedSet), failCap),
 		Assume: []string{
 			"the server's own stream discipline is synchronous (no goroutines in pkg/lsp); the harness still takes every verdict after Run has returned and matches responses by id, snapshots between messages are used only to name the failing step",
-			"protocol rules taken as given: Position.character counts UTF-16 code units; character past the line end clamps to the line end; line past the last line clamps to the document end; negative coordinates, start after end and a character inside a surrogate pair are undefined (only liveness and response rules are checked for those); documents contain no '\\r'",
+			"protocol rules taken as given: Position.character counts UTF-16 code units; character past the line end clamps to the line end; line past the last line clamps to the document end; negative coordinates, start after end and a character inside a surrogate pair are undefined (only liveness and response rules are checked for those); a '\\r' occurs only as part of CR LF; a column behind the content of a CR LF line is undefined as well",
 			"JSON-RPC: a message with a non-null number or string id and a string method is a request and is owed exactly one response; messages that are neither request nor notification (null id, malformed JSON, wrong member types, response-shaped) may be answered at most once, with their own id or null; nothing is owed after the exit notification or after a Content-Length that the remaining input cannot satisfy",
 			"expected number of diagnostics = number of errors gosqlx.ParseWithRecovery reports for the model text (the property defines it so); the line of a diagnostic is asserted only for texts made of one ';'-terminated statement per line without quotes or comments, where the broken lines are found by strict-parsing each line on its own and the counts agree",
 			"each history is far below the rate limiter's 100 messages per second window (<= 6 messages on a fresh server)",
@@ -130,7 +130,7 @@ func runA(e *common.Enum, al []item, h []int) {
 // Space B
 // ---------------------------------------------------------------------------
 
-var docsB = []string{"", "a", "ab\ncd", "a\n", "é\nb", "😀b\nc"}
+var docsB = []string{"", "a", "ab\ncd", "a\n", "é\nb", "😀b\nc", "ab\r\ncd", "a\r\n\r\nb\r\n"}
 var replB = []string{"", "x", "\n", "é"}
 
 func enumerateB(e *common.Enum) {
@@ -201,7 +201,7 @@ func enumerateB(e *common.Enum) {
 // past the last line / two past the longest line counted in BYTES (so that every value between the rune count, the
 // UTF-16 length and the byte length of a non-ASCII line is met), on every document of the alphabet and of space B.
 func enumerateC(e *common.Enum) {
-	docs := append([]string{docA, docU, docK, docF}, docsB...)
+	docs := append([]string{docA, docU, docK, docF}, docsB[:6]...) // the CR LF documents take part in the edit sweep only
 	kinds := []struct{ name, method, extra string }{
 		{"hover", "textDocument/hover", ""},
 		{"completion", "textDocument/completion", `,"context":{"triggerKind":1}`},
